@@ -53,7 +53,17 @@ class Ctx:
         self.live = set()      # schedulers past their enter and not yet exited
         self.entering = set()  # schedulers inside their own enter phase (programs with "enter_effects" only)
         self.exiting = set()   # DoDoers inside their own exit (their doers' exit contexts may call back)
+        self.fresh = {}        # id -> callable giving a NEW object equal to the doer (a freshly accessed bound method)
         self.skew = []         # (kind, id, own view of tyme, Doist's tyme) where they differ
+
+    def idof(self, o, default=-1):
+        for i, v in self.objs.items():
+            if v is o:
+                return i
+        for i in self.fresh:
+            if o == self.objs[i]:
+                return i
+        return default
 
     def ev(self, kind, i, own=None):
         self.log.append((kind, i, self.doist.tyme))
@@ -73,14 +83,14 @@ class Ctx:
                     and not (self.prog.get("enter_effects") and e[1] in self.entering)):
                 continue                # target scheduler not running: outside the program class
             target = self.objs[e[1]]
-            lst = [self.objs[j] for j in e[2]]
+            # (a doize'd method is named by accessing it again: an equal bound method, not the same object)
+            lst = [self.fresh[j]() if j in self.fresh else self.objs[j] for j in e[2]]
             # the argument may be the scheduler's own live .doers list or a lazy iterable over it (4th element)
             form = e[3] if len(e) > 3 else None
             if form and [id(o) for o in target.doers] == [id(o) for o in lst]:
                 lst = target.doers if form == "live" else (d for d in target.doers)
-            inv = {id(o): i for i, o in self.objs.items()}
             rec = {"kind": e[0], "target": e[1], "ids": list(e[2]), "caller": caller, "start": len(self.log),
-                   "before": [inv.get(id(o), -1) for o in target.doers]}
+                   "before": [self.idof(o) for o in target.doers]}
             if e[1] in self.entering:
                 rec["phase"] = "enter"      # issued from a doer's enter context while the target enters its doers
             self.efflog.append(rec)
@@ -92,13 +102,13 @@ class Ctx:
                     target.remove(lst)
                     self.ev("RemRet", caller)
             except BaseException as ex:
-                rec["after_raise"] = [inv.get(id(o), -1) for o in target.doers]
+                rec["after_raise"] = [self.idof(o) for o in target.doers]
                 if form == "catch" and isinstance(ex, ScriptError):
                     rec["caught"] = True        # the calling doer handles the failure and carries on
                     continue
                 raise
             rec["end"] = len(self.log) - 1
-            rec["after"] = [inv.get(id(o), -1) for o in target.doers]
+            rec["after"] = [self.idof(o) for o in target.doers]
 
     def step(self, script, pc):
         return script[pc] if pc < len(script) else DEFAULT_STEP
@@ -285,6 +295,15 @@ def _build(ctx, i):
             holder = Holder()
             obj = doing.doify(holder.meth, tock=0.0)
             ctx.keep.append(holder)   # the bound method references holder already; kept for clarity
+            if d.get("fresh_method"):
+                class Holder2:
+                    @doing.doize(tock=0.0)
+                    def meth(self, tymth=None, tock=0.0, *, temp=None, **opts):
+                        return (yield from body(tymth=tymth, tock=tock, temp=temp, **opts))
+                holder = Holder2()
+                obj = holder.meth              # the doer IS the bound method; every access gives an equal new object
+                ctx.keep.append(holder)
+                ctx.fresh[i] = (lambda h=holder: h.meth)
         else:
             obj = doing.doify(body, name=f"f{i}", tock=0.0)
     ctx.objs[i] = obj
@@ -448,9 +467,8 @@ def run_prog(prog):
             raised = "escape:" + type(ex).__name__
             ctx.log.append(("DoRaise", 0, doist.tyme))
     ids = sorted(int(k) for k in prog["defs"])
-    inv = {id(o): i for i, o in ctx.objs.items()}
     def idlist(objs):
-        return [inv.get(id(o), 999999) for o in objs]
+        return [ctx.idof(o, 999999) for o in objs]
     scheds = [[0, idlist(doist.doers), len(doist.deeds)]]
     for i in ids:
         if prog["defs"][str(i)]["kind"] == "nest":
@@ -1145,7 +1163,7 @@ def gen_enter_effects(rng, n):
     out = []
     Y = lambda: {"es": [], "out": ["y", None]}
     while len(out) < n:
-        p = gen_static(rng, n_leaves=rng.randint(3, 6), nest_depth=rng.choice([0, 1]), faults=False, tocks="dyadic", limit_p=1.0)
+        p = gen_static(rng, n_leaves=rng.randint(3, 6), nest_depth=rng.choice([0, 1, 1]), faults=False, tocks="dyadic", limit_p=1.0)
         p["limit"] = abs(p["limit"]) if p["limit"] else 4 * p["tock"]
         p["enter_effects"] = True
         targets = [(0, list(p["doers"]))] + [(int(i), list(d["kids"])) for i, d in p["defs"].items() if d["kind"] == "nest"]
@@ -1153,7 +1171,8 @@ def gen_enter_effects(rng, n):
         good = [x for x in targets if len(leafy(x[1])) >= 2]
         if not good:
             continue
-        t, members = rng.choice(good)
+        nests_ = [x for x in good if x[0] != 0]
+        t, members = rng.choice(nests_) if nests_ and rng.random() < 0.6 else rng.choice(good)
         if t != 0:
             p["defs"][str(t)]["always"] = True
         leaves = leafy(members)
@@ -1196,7 +1215,11 @@ def gen_enter_effects(rng, n):
             eff = ["ext", t, arg]
         else:
             others = [m for m in leaves if m != c]
-            eff = ["rem", t, [rng.choice(others + [c])]]  # entered earlier, not yet entered, or itself
+            v = rng.choice(others + [c])
+            eff = ["rem", t, [v]]                         # entered earlier, not yet entered, or itself
+            sc_ = p["defs"][str(c)]["script"]
+            if v != c and leaves.index(v) > leaves.index(c) and len(sc_) > 2 and rng.random() < 0.6:
+                sc_[rng.randint(1, len(sc_) - 2)]["es"].append(["ext", t, [v]])    # ... and added back later in the run
         p["defs"][str(c)]["script"][0]["es"].append(eff)
         out.append(p)
     return out
